@@ -472,6 +472,9 @@ def run_shard(prop, tier, seed, shard, nshards, replay, budget):
 
     build.ensure_ext()
     mod = importlib.import_module("vt.checks." + prop.lower())
+    import warnings
+
+    warnings.filterwarnings("ignore")
     ctx = Ctx(prop, tier, seed, shard, nshards, replay, budget)
     ctx.rule = getattr(mod, "RULE", "")
     ctx.level = getattr(mod, "LEVEL", "exploration")
